@@ -619,6 +619,9 @@ class Subscription(BaseSubscription):
                     subwhere.append(
                         f"id IN (SELECT id FROM tags WHERE name = '{tagname}' AND value IN ({pstr})) "
                     )
+                else:
+                    # a tag condition without usable values can match nothing
+                    raise ValueError("tags")
         return filter_obj
 
     def build_query(self, filters):
